@@ -280,6 +280,20 @@ func ruleStateF13(c *Ctx) {
 			fail[n] = why
 		}
 	}
+	// diagnostics-only state: what is remembered decides only whether something is *logged* (repeated warnings omitted)
+	nDiag := 0
+	for _, n := range names {
+		if verdict[n] != "" {
+			continue
+		}
+		if ok, why := c.diagnosticsOnlyState(fields[n], n); ok {
+			verdict[n] = "diagnostics-only state: " + why
+			nDiag++
+		} else if why != "" && fail[n] == "" {
+			fail[n] = why
+		}
+	}
+	c.count("C15.R6:diagnostics-only state items", nDiag)
 	for _, n := range names {
 		f := fields[n]
 		fn := f.stores[0].Parent()
@@ -748,4 +762,252 @@ func (c *Ctx) injectiveKeySources(key ssa.Value) []ssa.Value {
 		}
 	}
 	return out
+}
+
+// isPlainLogCall: a call that only writes a log line (and returns): the leveled methods of the gotils logger below Panic
+func isPlainLogCall(ci ssa.CallInstruction) bool {
+	f := ci.Common().StaticCallee()
+	if f == nil {
+		return false
+	}
+	s := extName(f)
+	if !strings.HasPrefix(s, "github.com/relex/gotils/logger.") && !strings.HasPrefix(s, "(github.com/relex/gotils/logger.Logger).") {
+		return false
+	}
+	switch f.Name() {
+	case "Debug", "Debugf", "Info", "Infof", "Warn", "Warnf", "Error", "Errorf", "WithField", "WithFields":
+		return true
+	}
+	return false
+}
+
+// isPureStringHelper: calls whose only effect is their result
+func isPureStringHelper(ci ssa.CallInstruction) bool {
+	if cl, ok := ci.(*ssa.Call); ok {
+		if b, ok := cl.Call.Value.(*ssa.Builtin); ok {
+			switch b.Name() {
+			case "len", "cap", "min", "max":
+				return true
+			}
+			return false
+		}
+	}
+	if ci.Common().IsInvoke() {
+		return ci.Common().Method.Name() == "Error" && ci.Common().Method.Type().(*types.Signature).Params().Len() == 0
+	}
+	f := ci.Common().StaticCallee()
+	if f == nil {
+		return false
+	}
+	switch extName(f) {
+	case modPath + "/util.DeepCopyString", "strings.Clone", "fmt.Sprintf", "fmt.Sprint", "strconv.Itoa", "strconv.Quote":
+		return true
+	}
+	return false
+}
+
+// diagnosticsOnlyState: every read of the field flows — as data and as control — only into plain log calls and into the
+// field's own updates. Data: the loaded value and what is computed from it reaches nothing but comparisons, log-call
+// arguments, pure string helpers and stores to the same field. Control: a branch on such a value may only decide blocks
+// that consist of log calls, pure helpers and stores to the same field — no return, no other call, no other store — and
+// a value merged after the branch (phi) is followed like the loaded value itself. Then no result, counter or record
+// field can differ between a run with and a run without the remembered value.
+func (c *Ctx) diagnosticsOnlyState(f *stateField, name string) (bool, string) {
+	if len(f.reads) == 0 {
+		return false, ""
+	}
+	sameField := func(addr ssa.Value) bool {
+		fa, ok := strip(addr).(*ssa.FieldAddr)
+		return ok && fieldName(fa.X.Type(), fa.Field) == name
+	}
+	for _, st := range f.stores {
+		if _, ok := st.(*ssa.Store); !ok {
+			return false, "" // map / element updates: not a plain remembered value
+		}
+	}
+	// a slot of an object allocated in this function that is handed to nothing but log calls and pure helpers (the
+	// argument array of a variadic log call)
+	freshLocal := func(addr ssa.Value, fn *ssa.Function) bool {
+		for i := 0; i < 4; i++ {
+			switch x := addr.(type) {
+			case *ssa.IndexAddr:
+				addr = x.X
+				continue
+			case *ssa.FieldAddr:
+				addr = x.X
+				continue
+			}
+			break
+		}
+		al, ok := addr.(*ssa.Alloc)
+		if !ok || al.Parent() != fn || al.Referrers() == nil {
+			return false
+		}
+		for _, ref := range *al.Referrers() {
+			switch x := ref.(type) {
+			case *ssa.IndexAddr, *ssa.FieldAddr, *ssa.DebugRef:
+			case *ssa.Slice:
+				if x.Referrers() == nil {
+					continue
+				}
+				for _, r2 := range *x.Referrers() {
+					ci, ok := r2.(ssa.CallInstruction)
+					if !ok || !(isPlainLogCall(ci) || isPureStringHelper(ci)) {
+						return false
+					}
+				}
+			default:
+				return false
+			}
+		}
+		return true
+	}
+	for _, r := range f.reads {
+		v, ok := r.(ssa.Value)
+		if !ok {
+			return false, ""
+		}
+		fn := r.Parent()
+		tainted := map[ssa.Value]bool{v: true}
+		work := []ssa.Value{v}
+		checkedIf := map[*ssa.If]bool{}
+		harmlessBlock := func(b *ssa.BasicBlock) (bool, string) {
+			for _, in := range b.Instrs {
+				switch x := in.(type) {
+				case *ssa.Return, *ssa.Panic, *ssa.Go, *ssa.Defer, *ssa.Send, *ssa.MapUpdate, *ssa.Select, *ssa.RunDefers:
+					return false, fmt.Sprintf("the remembered value decides whether %s at %s is executed", strings.ToLower(strings.TrimPrefix(fmt.Sprintf("%T", x), "*ssa.")), c.P.pos(in.Pos()))
+				case *ssa.Store:
+					if !sameField(x.Addr) && !freshLocal(x.Addr, b.Parent()) {
+						return false, "the remembered value decides whether the store at " + c.P.pos(in.Pos()) + " is executed"
+					}
+				case ssa.CallInstruction:
+					if !isPlainLogCall(x) && !isPureStringHelper(x) {
+						return false, "the remembered value decides whether the call at " + c.P.pos(in.Pos()) + " is executed"
+					}
+				}
+			}
+			return true, ""
+		}
+		for len(work) > 0 {
+			cur := work[len(work)-1]
+			work = work[:len(work)-1]
+			refs := cur.Referrers()
+			if refs == nil {
+				continue
+			}
+			for _, ref := range *refs {
+				add := func(x ssa.Value) {
+					if !tainted[x] {
+						tainted[x] = true
+						work = append(work, x)
+					}
+				}
+				switch x := ref.(type) {
+				case *ssa.BinOp, *ssa.Convert, *ssa.ChangeType, *ssa.MakeInterface, *ssa.Slice, *ssa.Phi, *ssa.Extract, *ssa.Lookup, *ssa.Index, *ssa.ChangeInterface:
+					add(x.(ssa.Value))
+				case *ssa.UnOp:
+					if x.Op == token.MUL || x.Op == token.ARROW {
+						return false, ""
+					}
+					add(x)
+				case *ssa.DebugRef:
+				case *ssa.Store:
+					if x.Val != cur || !sameField(x.Addr) {
+						// a varargs slot of a log call is an element store into a fresh array: followed through the array
+						if ia, ok := x.Addr.(*ssa.IndexAddr); ok && x.Val == cur {
+							if al, ok := ia.X.(*ssa.Alloc); ok && !al.Heap || ok {
+								add(al)
+								continue
+							}
+						}
+						return false, "the remembered value is stored elsewhere at " + c.P.pos(x.Pos())
+					}
+				case *ssa.IndexAddr:
+					// the address of a varargs slot being filled: harmless by itself
+				case ssa.CallInstruction:
+					if isPlainLogCall(x) {
+						continue
+					}
+					if isPureStringHelper(x) {
+						if xv, ok := x.(ssa.Value); ok {
+							add(xv)
+						}
+						continue
+					}
+					return false, "the remembered value is passed to the call at " + c.P.pos(x.Pos())
+				case *ssa.If:
+					if checkedIf[x] {
+						continue
+					}
+					checkedIf[x] = true
+					ib := x.Block()
+					reachFrom := func(start *ssa.BasicBlock) map[*ssa.BasicBlock]bool {
+						seen := map[*ssa.BasicBlock]bool{}
+						var walk func(b *ssa.BasicBlock)
+						walk = func(b *ssa.BasicBlock) {
+							if seen[b] || b == ib {
+								return
+							}
+							seen[b] = true
+							for _, sc := range b.Succs {
+								walk(sc)
+							}
+						}
+						walk(start)
+						return seen
+					}
+					r0, r1 := reachFrom(ib.Succs[0]), reachFrom(ib.Succs[1])
+					excl := map[*ssa.BasicBlock]bool{}
+					for b := range r0 {
+						if !r1[b] {
+							excl[b] = true
+						}
+					}
+					for b := range r1 {
+						if !r0[b] {
+							excl[b] = true
+						}
+					}
+					for _, b := range fn.Blocks {
+						if !excl[b] {
+							continue
+						}
+						if ok, why := harmlessBlock(b); !ok {
+							return false, why
+						}
+					}
+					// values merged after the decided blocks carry the decision
+					for _, b := range fn.Blocks {
+						if excl[b] {
+							continue
+						}
+						for _, in := range b.Instrs {
+							ph, ok := in.(*ssa.Phi)
+							if !ok {
+								break
+							}
+							var first ssa.Value
+							differ := false
+							for i, pr := range b.Preds {
+								if !excl[pr] && pr != ib {
+									continue
+								}
+								if first == nil {
+									first = ph.Edges[i]
+								} else if first != ph.Edges[i] {
+									differ = true
+								}
+							}
+							if differ {
+								add(ph)
+							}
+						}
+					}
+				default:
+					return false, fmt.Sprintf("the remembered value reaches %s at %s", strings.TrimPrefix(fmt.Sprintf("%T", ref), "*ssa."), c.P.pos(ref.Pos()))
+				}
+			}
+		}
+	}
+	return true, fmt.Sprintf("all %d read(s) flow only into log calls and the field's own updates (data and control): no result, counter or record field can depend on it", len(f.reads))
 }
